@@ -534,6 +534,86 @@ CANCEL = Harness(
     stubs=STUBS_COMMON,
 )
 
+# ------------------------------------------------------------------------------ J-factory
+NAMES = ["default", "2nd", "0", "caf\u00e9"]
+
+
+def _make_getter(cls, name, is_async):
+    """One `def`, many injected functions: the annotation and the resource name are parameters of the enclosing call."""
+    if is_async:
+
+        @inject
+        async def getter(*, res: cls = resource(name)):
+            return res
+
+    else:
+
+        @inject
+        def getter(*, res: cls = resource(name)):
+            return res
+
+    return getter
+
+
+def fac_params(tier):
+    return [P("is_async", 0, 1), P("name", 0, 3), P("second", 0, 2), P("order", 0, 1)]
+
+
+@guard
+def fac_fn(a, tier):
+    is_async, name = pick(a["is_async"], 2), NAMES[pick(a["name"], 4)]
+    second, order = pick(a["second"], 3), pick(a["order"], 2)
+    ann2 = [T1, Optional[T1], Optional[T0]][second]
+    out = {}
+
+    async def call(fn):
+        try:
+            r = fn()
+            r = await r if is_async else r
+            return ("ok", r.label if isinstance(r, Val) else r)
+        except Exception as e:
+            return ("exc", type(e).__name__)
+
+    async def main():
+        g1 = _make_getter(T0, name, is_async)
+        g2 = _make_getter(ann2, name, is_async)
+        async with Context() as ctx:
+            ctx.add_resource(Val("the T0"), name, [T0])
+            if second == 0:
+                ctx.add_resource(Val("the T1"), name, [T1])
+            seq = [("g1", g1), ("g2", g2), ("g1", g1)] if order == 0 else [("g2", g2), ("g1", g1), ("g2", g2)]
+            out["calls"] = [(tag, await call(fn)) for tag, fn in seq]
+            # explicit lookups in the same context
+            out["exp"] = {"g1": ("ok", "the T0"), "g2": [("ok", "the T1"), ("ok", None), ("ok", "the T0")][second]}
+
+    try:
+        _, exc, _k = run(main)
+    except Exception as e:  # decoration itself may fail
+        exc = e
+    summary = {"functions": "two injected functions made from ONE def: annotated T0 and " + ["T1", "Optional[T1] (missing)", "Optional[T0]"][second],
+               "kind": "async def" if is_async else "def", "resource_name": name, "call_order": "g1,g2,g1" if order == 0 else "g2,g1,g2"}
+    if exc is not None:
+        return FAIL(f"factory:raised:{type(exc).__name__}:name={name}", repr(exc), summary)
+    for tag, got in out["calls"]:
+        if got != out["exp"][tag]:
+            return FAIL(f"factory:injected-function-bound-to-another-functions-annotation-or-name:second={second}:name={name}", f"{out['calls']} expected {out['exp']}", summary)
+    return OK(summary, True)
+
+
+FACT = Harness(
+    prop="C19",
+    name="J-factory",
+    fn=fac_fn,
+    params=fac_params,
+    cube=lambda tier: 0,
+    title="several injected functions created from one `def` (annotation and resource name supplied by the enclosing call)",
+    bound_text=lambda tier: "def / async def; resource name in " + str(NAMES) + "; first function annotated T0, second T1 / Optional[T1] with nothing registered / Optional[T0]; "
+    "called in the order g1,g2,g1 or g2,g1,g2 in one context",
+    oracle="each call returns what the explicit lookup of ITS annotated type and name returns in that context (None for the missing Optional one)",
+    outside="-",
+    stubs=STUBS_COMMON,
+)
+
 # ------------------------------------------------------------------------------ J-late
 def late_params(tier):
     return [P("is_async", 0, 1), P("nested_fn", 0, 1), P("present", 0, 1), P("optional", 0, 1)]
@@ -670,4 +750,4 @@ COMP = Harness(
     stubs=STUBS_COMMON,
 )
 
-HARNESSES = [H, DECO, RACE, CANCEL, LATE, COMP]
+HARNESSES = [H, DECO, RACE, CANCEL, FACT, LATE, COMP]
